@@ -303,18 +303,9 @@ def print_records(cases, fuse, indent_of):
 
 
 def validate(recs, name, rep=None):
-    tf = os.path.join(tmp_dir(name), 'print.ndjson')
-    with open(tf, 'w') as f:
-        for r in recs:
-            f.write(json.dumps(r) + '\n')
-    tr = run_tlc('PrintTrace', cfg='PrintTrace.cfg',
-                 cfg_text='SPECIFICATION Spec\nINVARIANT Verdict\n',
-                 modules={'Dummy_': '---- MODULE Dummy_ ----\n====\n'},
-                 workers=12, env={'TRACE_FILE': tf}, heap='8g')
-    if rep is not None:
-        rep.add_tlc(tr)
+    from common import validate_trace
     out = {}
-    for line in tr.lines:
+    for line in validate_trace('PrintTrace', recs, name, rep):
         i, why, k = json.loads(line)
         out[i] = (why, k - 1)
     if len(out) != len(recs):
